@@ -8,6 +8,9 @@ R-C14-2: the mutable entry accessors are called only by the solver itself and by
          reachable exclusively from smoother constructors — nothing edits L,D after the first solve.
 R-C14-3: the substitution phase reads gamma_ / the stored matrix only (no recomputation from the caller's data) and
          DiagonalSolver::solveInPlace is const (cannot change the operator).
+R-C14-4: solveInPlace (LDL^T, Sherman-Morrison for the cyclic case) interpreted from source on matrices whose entries are
+         independent symbols, n = 2..6 (9), cyclic and not: A x == b holds identically (exact arithmetic, all values with
+         non-vanishing pivots) and a second solve returns the identical solution. Rounding/backward stability: not decided.
 """
 from gmg import ir, report, structq
 from gmg.structq import exprs_of_stmt, is_this_field, stmts_with_guards, writes_in_expr
@@ -40,6 +43,97 @@ def is_not_factorized(cond, pol):
     if is_this_field(cond, "factorized_"):
         return pol is False
     return False
+
+
+def algebraic_solves(ck, prog, tier):
+    """interpret solveInPlace from source on a symbolic SPD-shaped matrix (entries are independent atoms) in the exact
+    rational-function domain: the returned x must satisfy A x = b identically, and a second solve with the same object must
+    return the identical table. Decides algebraic exactness for all values (non-vanishing pivots) for n = 2..N; rounding is not examined."""
+    from gmg import dag, opsdom, symdom
+    from gmg.dag import Lin
+    from gmg.interp import Cell, Interp
+    from gmg.symdom import SArr
+    ck.rule("R-C14-4", "solveInPlace interpreted on symbolic matrices: A x == b identically (n=2..N, cyclic and not); repeated solve identical; DiagonalSolver likewise", floor=8)
+    ns = range(2, 7) if tier == "quick" else range(2, 10)
+    solve = prog.fn(CLS + "::solveInPlace")
+    ctor = [f for f in prog.fns(CLS + "::SymmetricTridiagonalSolver") if f.get("special") == "ctor"][0]
+    for cyclic in (False, True):
+        for n in ns:
+            key = "n=%d cyclic=%s" % (n, cyclic)
+            ck.instance("R-C14-4", key)
+            dom = opsdom.OpsDomain(prog, record=False)
+            it = Interp(prog, dom)
+            o = dom.new_object(CLS, None, None)
+            it.call_function(ctor, o, [n])
+            o.f["is_cyclic_"].set(cyclic)
+            md, sd = o.f["main_diagonal_values_"].get(), o.f["sub_diagonal_values_"].get()
+            a = [dag.atom("a_%d" % i) for i in range(n)]
+            b = [dag.atom("b_%d" % i) for i in range(n - 1)]
+            c = dag.atom("c")
+            for i in range(n):
+                md.sym[i] = a[i]
+            for i in range(n - 1):
+                sd.sym[i] = b[i]
+            if cyclic:
+                o.f["cyclic_corner_element_"].set(c)
+            # the matrix as the class documents it: symmetric tridiagonal + corner (0,n-1),(n-1,0) when cyclic
+            A = {}
+            for i in range(n):
+                A[(i, i)] = a[i]
+            for i in range(n - 1):
+                A[(i, i + 1)] = dag.add(A.get((i, i + 1), dag.ZERO), b[i])
+                A[(i + 1, i)] = dag.add(A.get((i + 1, i), dag.ZERO), b[i])
+            if cyclic:
+                A[(0, n - 1)] = dag.add(A.get((0, n - 1), dag.ZERO), c)
+                A[(n - 1, 0)] = dag.add(A.get((n - 1, 0), dag.ZERO), c)
+            results = []
+            bad = None
+            for rep in range(2):
+                x = SArr("x", n, gen=lambda j: dag.atom("rhs_%d" % j))
+                t1, t2 = SArr("t1", n, zero=True), SArr("t2", n, zero=True)
+                from gmg.conc import PtrInto
+                try:
+                    it.call_function(solve, o, [PtrInto(x, 0), PtrInto(t1, 0), PtrInto(t2, 0)])
+                except ir.AnalysisBroken as e:
+                    bad = "interpretation failed: %s" % e
+                    break
+                sol = [dag.lift(x.sym.get(i, dag.atom("rhs_%d" % i))) for i in range(n)]
+                results.append(sol)
+                for i in range(n):
+                    lhs = dag.total(dag.mul(A[(i, j)], sol[j]) for j in range(n) if (i, j) in A)
+                    if not dag.equal(lhs, dag.atom("rhs_%d" % i)):
+                        bad = "solve #%d: row %d of A x - b does not vanish (A = tridiag(a,b)%s)" % (rep + 1, i, " + corner c" if cyclic else "")
+                        break
+                if bad:
+                    break
+            if not bad and any(not dag.equal(p_, q_) for p_, q_ in zip(results[0], results[1])):
+                bad = "the second solve with the same object returns a different solution"
+            if bad:
+                ck.violation("R-C14-4", "solve:%s" % ("cyclic" if cyclic else "tridiagonal"), ir.locstr(solve), "%s: %s" % (key, bad))
+            else:
+                ck.ok("R-C14-4", key, sample={"n": n, "cyclic": cyclic, "checked": "A x == b for symbolic a_i, b_i%s; two successive solves" % (", c" if cyclic else "")} if n == 3 else None)
+    # DiagonalSolver
+    dcls = "DiagonalSolver<double>"
+    dsolve = prog.fn(dcls + "::solveInPlace")
+    dctor = [f for f in prog.fns(dcls + "::DiagonalSolver") if f.get("special") == "ctor"][0]
+    for n in (1, 3, 5):
+        key = "diagonal n=%d" % n
+        ck.instance("R-C14-4", key)
+        dom = opsdom.OpsDomain(prog, record=False)
+        it = Interp(prog, dom)
+        o = dom.new_object(dcls, None, None)
+        it.call_function(dctor, o, [n])
+        dv = o.f["diagonal_values_"].get()
+        for i in range(n):
+            dv.sym[i] = dag.atom("d_%d" % i)
+        x = SArr("x", n, gen=lambda j: dag.atom("rhs_%d" % j))
+        from gmg.conc import PtrInto
+        it.call_function(dsolve, o, [PtrInto(x, 0)])
+        ok = all(dag.equal(dag.mul(dag.atom("d_%d" % i), dag.lift(x.sym[i])), dag.atom("rhs_%d" % i)) for i in range(n))
+        if ok:
+            ck.ok("R-C14-4", key)
+        else:
+            ck.violation("R-C14-4", "solve:diagonal", ir.locstr(dsolve), "%s: D x != b" % key)
 
 
 def main(tier):
@@ -155,6 +249,8 @@ def main(tier):
                              "%s calls the mutable accessor %s() and is reachable from %s, which is not a smoother constructor: the matrix can be edited after it was factorised" % (caller, acc, ", ".join(bad_roots[:4])))
             else:
                 ck.ok("R-C14-2", key, sample={"accessor": acc, "caller": caller, "reachable only from": sorted(roots)} if acc == "main_diagonal" else None)
+    # ---------------- R-C14-4: exact-arithmetic correctness of the solves on symbolic matrices (small n)
+    algebraic_solves(ck, prog, tier)
     return ck.finish(
         "Structural typestate rule: the line solver has two states (holds A / holds L,D) distinguished by factorized_. In both "
         "solve paths every write of stored matrix data must lie inside the `!factorized_` block, which must set the flag before it "
